@@ -205,6 +205,36 @@ def run_unit(unit, repo, verif, tier='quick', canary=True, workdir=None):
         res['smt_ms'] = js['times-ms']['smt']['total'] if 'times-ms' in js else None
     errs = parse_errors(r['stderr'], path)
     lines = text.split('\n')
+    # solver instability guard: a function whose query ran out of resources in the whole-file run is re-verified alone (Z3's search depends on the
+    # order and naming of everything that precedes the query; the verification condition itself is the same).  Only resource-limit failures are retried;
+    # a function that then verifies counts as discharged and is listed under `retried_in_isolation`.
+    res['retried_in_isolation'] = []
+    if js and any(e['kind'] == 'resource' for e in errs):
+        crate = os.path.splitext(os.path.basename(path))[0]
+        slow = [f['function'] for f in fb if not f['success']]
+        still = []
+        for fq in slow:
+            short = fq[len(crate) + 2:] if fq.startswith(crate + '::') else fq
+            ok = False
+            for rl2 in (rl, rl * 3):
+                rr = run_verus(path, rlimit=rl2, extra=['--verify-root', '--verify-function', short])
+                j2 = rr['json']
+                vr2 = (j2 or {}).get('verification-results', {})
+                if vr2 and vr2.get('errors') == 0 and vr2.get('verified', 0) > 0 and not vr2.get('encountered-error') and not vr2.get('encountered-vir-error') and not parse_errors(rr['stderr'], path):
+                    ok = True
+                    res['retried_in_isolation'].append({'function': fq, 'rlimit': rl2, 'wall': round(rr['wall'], 1)})
+                    break
+            if not ok:
+                still.append(fq)
+        if slow and not still:
+            errs = [e for e in errs if e['kind'] != 'resource']
+            res['discharged'] = res.get('discharged', 0) + len(slow)
+            for f in fb:
+                if f['function'] in slow:
+                    f['success'] = True
+                    f['note'] = 'verified when re-run in isolation'
+            if not errs:
+                js['verification-results']['success'] = True
 
     def fn_of(ln):
         for (a, b, name) in info['fn_spans']:
